@@ -21,13 +21,14 @@
 #include <ksi/pkitruststore.h>
 #include <ksi/signature_builder.h>
 #include <ksi/signature_helper.h>
+#include <stdarg.h>
 #include <dirent.h>
 #include <sys/stat.h>
 
-enum { EP_SIG_EMPTY = 0, EP_SIG_INT, EP_AGGR1, EP_AGGR2, EP_EXT1, EP_EXT2, EP_PUBFILE, EP_TLV, EP_FTLV, EP_ELEM, EP_NBIN,
+enum { EP_SIG_EMPTY = 0, EP_SIG_INT, EP_AGGR1, EP_AGGR2, EP_EXT1, EP_EXT2, EP_PUBFILE, EP_TLV, EP_FTLV, EP_ELEM, EP_ELEMX, EP_NBIN,
        EP_B32 = EP_NBIN, EP_URI, EP_HASHNAME, EP_N };
 static const char *EPNAME[EP_N] = {"sigparse-empty", "sigparse", "aggrpdu-v1", "aggrpdu-v2", "extpdu-v1", "extpdu-v2", "pubfile",
-                                   "tlv", "ftlv", "tlvelem", "pubstring", "uri", "hashname"};
+                                   "tlv", "ftlv", "tlvelem", "tlvelem-expand", "pubstring", "uri", "hashname"};
 #define REFKEY "key-c12"
 #define REFLOGIN "user-c12"
 
@@ -41,9 +42,11 @@ static volatile size_t g_sink;
 #define NOTE(v) (st_hash = (st_hash ^ (uint64_t)(unsigned)(v)) * 1099511628211ULL)
 #define CALL() (st_calls++)
 
+static int st_nsigs;
 static void stats_reset(void) {
 	memset(st_ok, 0, sizeof st_ok); memset(st_err, 0, sizeof st_err); memset(st_ver, 0, sizeof st_ver);
 	st_calls = st_follow = st_inputs = st_pduverify_ok = st_log_calls = 0;
+	st_nsigs = 0;
 	st_hash = 1469598103934665603ULL;
 }
 static void stats_flush(void) {
@@ -65,10 +68,15 @@ static void stats_flush(void) {
 }
 
 static void fail(const char *sig, const char *fmt, ...) __attribute__((format(printf, 2, 3)));
+static char st_sigs[16][64];
 static void fail(const char *sig, const char *fmt, ...) {
 	char b[2800];
 	va_list ap;
+	int i;
 	if (g_quiet) return;
+	/* one report per signature and case; further instances are counted */
+	for (i = 0; i < st_nsigs; i++) if (!strcmp(st_sigs[i], sig)) { vf_count("further_instances", 1); return; }
+	if (st_nsigs < 16) snprintf(st_sigs[st_nsigs++], sizeof st_sigs[0], "%s", sig);
 	va_start(ap, fmt);
 	vsnprintf(b, sizeof b, fmt, ap);
 	va_end(ap);
@@ -177,7 +185,14 @@ static const size_t STRSZ[] = {1, 16, 1500};
 static void int_touch(const KSI_Integer *i) {
 	if (i == NULL) return;
 	g_sink += (size_t)KSI_Integer_getUInt64(i);
-	TOSTR("KSI_Integer_toDateString", KSI_Integer_toDateString(i, b, l));
+	{
+		/* a buffer that holds every possible rendering; short buffers are enumerated in the case text:datestring */
+		char *b = (char *)malloc(64);
+		memset(b, 'x', 64);
+		CALL();
+		if (KSI_Integer_toDateString(i, b, 64) == b) { if (memchr(b, 0, 64) == NULL) fail("tostring-unterminated", "KSI_Integer_toDateString(%llu): no terminator within the 64 byte buffer", (unsigned long long)KSI_Integer_getUInt64(i)); else g_sink += strlen(b); }
+		free(b);
+	}
 }
 static void utf_touch(const KSI_Utf8String *s) {
 	const char *c;
@@ -243,7 +258,6 @@ static void calauth_touch(KSI_CalendarAuthRec *ar) {
 	KSI_PKISignedData *sd = NULL;
 	if (ar == NULL) return;
 	KSI_CalendarAuthRec_getPublishedData(ar, &pd); pubdata_touch(pd);
-	KSI_CalendarAuthRec_getSignatureAlgo(ar, &u); utf_touch(u);
 	KSI_CalendarAuthRec_getSignatureData(ar, &sd); pkisigned_touch(sd);
 }
 static void calchain_touch(KSI_CalendarHashChain *c) {
@@ -643,12 +657,11 @@ static void elem_serialize(KSI_TlvElement *e) {
 		free(b);
 	}
 }
-static void elem_followups(KSI_TlvElement *e) {
+static void elem_followups(KSI_TlvElement *e, int expand) {
 	st_follow++;
 	NOTE(e->ftlv.tag); NOTE(e->ftlv.dat_len);
 	elem_serialize(e);
-	elem_expand(e, 0);
-	elem_serialize(e);
+	if (expand) { elem_expand(e, 0); elem_serialize(e); }
 	CALL(); NOTE(KSI_TlvElement_detach(e));
 	elem_serialize(e);
 }
@@ -664,6 +677,13 @@ static void err_render(void) {
 	if (KSI_ERR_toString(ctx, b, 600) != NULL) { if (memchr(b, 0, 600) == NULL) fail("tostring-unterminated", "KSI_ERR_toString"); else g_sink += strlen(b); }
 	free(b);
 	KSI_ERR_getBaseErrorMessage(ctx, msg, sizeof msg, NULL, &ext);
+}
+
+static long g_exact_leaked;
+static const char *ep_leak_sig(int ep) {
+	static char b[EP_N][40];
+	snprintf(b[ep], sizeof b[ep], "leak:%s", EPNAME[ep]);
+	return b[ep];
 }
 
 /* returns 1 when the entry point accepted the input */
@@ -755,12 +775,13 @@ static int run_input(int ep, const unsigned char *d, size_t n, int render_err) {
 			}
 			break;
 		}
-		case EP_ELEM: {
+		case EP_ELEM: case EP_ELEMX: {
 			KSI_TlvElement *e = NULL;
+			exact_leak_check = 1;
 			CALL(); res = KSI_TlvElement_parse(x.p, n, &e); NOTE(res);
 			if (res == KSI_OK) {
 				if (e == NULL) fail("ok-without-object", "%s returned KSI_OK and no object; input=%s", EPNAME[ep], vf_hex(d, n));
-				else { ok = 1; elem_followups(e); }
+				else { ok = 1; elem_followups(e, ep == EP_ELEMX); }
 			}
 			KSI_TlvElement_free(e);
 			break;
@@ -817,8 +838,11 @@ static int run_input(int ep, const unsigned char *d, size_t n, int render_err) {
 			break;
 		}
 	}
-	if (exact_leak_check && vf_alloc_live != live_before)
-		fail(ep == EP_FTLV ? "leak:ftlv" : ep == EP_URI ? "leak:uri" : "leak:hashname", "%ld SDK block(s) still allocated after the call; input=%s", vf_alloc_live - live_before, vf_hex(d, n));
+	if (exact_leak_check && vf_alloc_live != live_before) {
+		/* entry points that do not keep anything in the context: exact accounting per call */
+		fail(ep_leak_sig(ep), "%ld SDK block(s) still allocated after the call and after freeing what it returned; entry point %s, input (%zu bytes)=%s", vf_alloc_live - live_before, EPNAME[ep], n, vf_hex(d, n));
+		g_exact_leaked += vf_alloc_live - live_before;
+	}
 	xb_free(&x);
 	if (!g_quiet) { if (ok) st_ok[ep]++; else st_err[ep]++; }
 	return ok;
@@ -842,6 +866,7 @@ static int probe(batch *b, long lo, long hi, int loglevel, int only_ep, long *le
 	long i, lk;
 	vb_init(&in);
 	ctx_open(loglevel, b->userpub);
+	g_exact_leaked = 0;
 	s0 = sentinel();
 	for (i = lo; i < hi; i++) {
 		vb_reset(&in);
@@ -854,41 +879,694 @@ static int probe(batch *b, long lo, long hi, int loglevel, int only_ep, long *le
 		}
 	}
 	s1 = sentinel();
-	lk = ctx_close();
+	lk = ctx_close() - g_exact_leaked;   /* per-call exact findings were reported where they happened */
 	if (leaked) *leaked = lk;
 	if (lk != 0) bad |= 1;
-	if (s0 != s1 || s0 != g_sentinel_good) bad |= 2;
+	if (s0 != s1) bad |= 2;
 	vb_free(&in);
 	return bad;
 }
 
 static void run_batch(batch *b, int loglevel) {
 	long leaked = 0;
-	int bad = probe(b, 0, b->count, loglevel, -1, &leaked);
+	int bad = probe(b, 0, b->count, loglevel, -1, &leaked), ep, found = 0;
+	vbuf in;
 	if (!bad) return;
-	/* attribution: bisect to the first item that reproduces the problem on a fresh context */
-	{
+	/* attribution, per entry point: the whole batch through that entry point only on a fresh context, then
+	 * bisection to the first item that reproduces the problem alone */
+	g_quiet = 1;
+	vb_init(&in);
+	for (ep = 0; ep < EP_N; ep++) {
 		long lo = 0, hi = b->count, lk = 0;
-		int what = bad, found = 0, k, ne, eps[EP_N];
-		vbuf in;
-		g_quiet = 1;
+		int eps[EP_N], r, what;
+		if (!st_ok[ep] && !st_err[ep]) continue;
+		what = probe(b, 0, b->count, loglevel, ep, &lk) & bad;
+		if (!what) continue;
 		while (hi - lo > 1) {
 			long mid = lo + (hi - lo) / 2;
-			if (probe(b, lo, mid, loglevel, -1, NULL) & what) hi = mid; else lo = mid;
+			if (probe(b, lo, mid, loglevel, ep, NULL) & what) hi = mid; else lo = mid;
 		}
-		vb_init(&in);
-		ne = b->get(b, lo, &in, eps);
-		for (k = 0; k < ne && !found; k++) {
-			int r = probe(b, lo, lo + 1, loglevel, eps[k], &lk);
-			if (r & 1) { g_quiet = 0; fail(ep_leak_sig(eps[k]), "%ld SDK block(s) still allocated after the context was freed; entry point %s, log level %s, input (%zu bytes)=%s",
-			                                 lk, EPNAME[eps[k]], loglevel ? "debug" : "none", in.n, vf_hex(in.p, in.n)); g_quiet = 1; found = 1; }
-			if (r & 2) { g_quiet = 0; fail("ctx-damaged", "sentinel parse/verify on the same context differs after the call; entry point %s, input (%zu bytes)=%s", EPNAME[eps[k]], in.n, vf_hex(in.p, in.n)); g_quiet = 1; found = 1; }
-		}
+		r = probe(b, lo, lo + 1, loglevel, ep, &lk) & what;
+		vb_reset(&in);
+		b->get(b, lo, &in, eps);
 		g_quiet = 0;
-		if (!found) {
-			if (bad & 1) fail("leak:batch", "%ld SDK block(s) still allocated after the batch of %ld items (log level %s); not reproduced by a single item", leaked, b->count, loglevel ? "debug" : "none");
-			if (bad & 2) fail("ctx-damaged", "sentinel result changed during the batch of %ld items; not reproduced by a single item", b->count);
-		}
-		vb_free(&in);
+		if (r & 1) { found |= 1; fail(ep_leak_sig(ep), "%ld SDK block(s) still allocated after the call, freeing what it returned and freeing the context; entry point %s, log level %s, input (%zu bytes)=%s",
+		                              lk, EPNAME[ep], loglevel ? "debug" : "none", in.n, vf_hex(in.p, in.n)); }
+		if (r & 2) { found |= 2; fail("ctx-damaged", "sentinel parse/verify on the same context differs after the call; entry point %s, input (%zu bytes)=%s", EPNAME[ep], in.n, vf_hex(in.p, in.n)); }
+		g_quiet = 1;
 	}
+	g_quiet = 0;
+	vb_free(&in);
+	if ((bad & 1) && !(found & 1)) fail("leak:batch", "%ld SDK block(s) still allocated after the batch of %ld items (log level %s); not reproduced by a single item", leaked, b->count, loglevel ? "debug" : "none");
+	if ((bad & 2) && !(found & 2)) fail("ctx-damaged", "sentinel result changed during the batch of %ld items; not reproduced by a single item", b->count);
+}
+
+/* ------------------------------------------------------------------ seeds */
+enum { ST_SIG = 0, ST_AGGR, ST_EXT, ST_PUBFILE, ST_TLV };
+static const char *STNAME[] = {"signature", "aggregation-pdu", "extension-pdu", "publications-file", "tlv"};
+typedef struct { size_t off, hdr, len; int parent, is16; unsigned tag; int nc, fw; } el_t;
+typedef struct {
+	char name[160];
+	unsigned char *d; size_t n;
+	int type, quick;
+	size_t base;              /* offset of the first TLV (8 for the publications file magic) */
+	el_t *el; int nel, cap;
+} seed_t;
+#define MAXSEEDS 600
+static seed_t SEEDS[MAXSEEDS];
+static int NSEEDS;
+
+static void walk(seed_t *s, size_t off, size_t end, int parent, int depth) {
+	while (off < end) {
+		rtlv t;
+		el_t *e;
+		int me;
+		if (rtlv_read(s->d + off, end - off, &t) != 0) return;
+		if (s->nel == s->cap) { s->cap = s->cap ? s->cap * 2 : 64; s->el = (el_t *)realloc(s->el, sizeof(el_t) * (size_t)s->cap); }
+		me = s->nel++;
+		e = &s->el[me];
+		e->off = off; e->hdr = t.hdr; e->len = t.len; e->parent = parent; e->is16 = t.is16; e->tag = t.tag; e->nc = t.nc; e->fw = t.fw;
+		if (t.len > 0 && depth < 12 && rtlv_count(t.val, t.len) > 0) walk(s, off + t.hdr, off + t.hdr + t.len, me, depth + 1);
+		off += t.hdr + t.len;
+	}
+}
+
+static void add_seed(const char *name, const unsigned char *d, size_t n) {
+	seed_t *s;
+	if (NSEEDS >= MAXSEEDS) vf_harness_error("too many seeds");
+	s = &SEEDS[NSEEDS++];
+	memset(s, 0, sizeof *s);
+	snprintf(s->name, sizeof s->name, "%s", name);
+	s->d = (unsigned char *)malloc(n ? n : 1);
+	if (n) memcpy(s->d, d, n);
+	s->n = n;
+	s->type = ST_TLV;
+	if (n >= 8 && memcmp(d, "KSIPUBLF", 8) == 0) { s->type = ST_PUBFILE; s->base = 8; }
+	else if (n >= 2) {
+		/* the tag of the first header decides (the element itself need not fit) */
+		unsigned tag = (d[0] & 0x80) ? (n >= 2 ? (((unsigned)d[0] & 0x1f) << 8) | d[1] : 0) : (d[0] & 0x1fu);
+		if (tag == 0x800) s->type = ST_SIG;
+		else if (tag == 0x200 || tag == 0x220 || tag == 0x221) s->type = ST_AGGR;
+		else if (tag == 0x300 || tag == 0x320 || tag == 0x321) s->type = ST_EXT;
+	}
+	walk(s, s->base, s->n, -1, 0);
+}
+
+static int cmp_str(const void *a, const void *b) { return strcmp(*(const char *const *)a, *(const char *const *)b); }
+static const char *repo_dir(void) { const char *r = getenv("VERIF_REPO"); return (r && *r) ? r : "/repo"; }
+
+static void load_dir(const char *rel) {
+	char path[1024], *names[800];
+	int n = 0, i;
+	DIR *dp;
+	struct dirent *de;
+	snprintf(path, sizeof path, "%s/test/resource/tlv%s%s", repo_dir(), *rel ? "/" : "", rel);
+	dp = opendir(path);
+	if (!dp) { if (!*rel) vf_harness_error("cannot open %s", path); return; }
+	while ((de = readdir(dp)) != NULL && n < 800) {
+		const char *dot = strrchr(de->d_name, '.');
+		if (!dot) continue;
+		if (strcmp(dot, ".ksig") && strcmp(dot, ".tlv") && strcmp(dot, ".bin") && strcmp(dot, ".gtts")) continue;
+		names[n++] = strdup(de->d_name);
+	}
+	closedir(dp);
+	qsort(names, (size_t)n, sizeof names[0], cmp_str);
+	for (i = 0; i < n; i++) {
+		char fp[1400], nm[300];
+		struct stat st;
+		FILE *f;
+		snprintf(fp, sizeof fp, "%s/%s", path, names[i]);
+		snprintf(nm, sizeof nm, "%s%s%s", rel, *rel ? "/" : "", names[i]);
+		if (stat(fp, &st) == 0 && S_ISREG(st.st_mode) && st.st_size <= 70000 && (f = fopen(fp, "rb")) != NULL) {
+			unsigned char *buf = (unsigned char *)malloc((size_t)st.st_size + 1);
+			size_t got = fread(buf, 1, (size_t)st.st_size, f);
+			fclose(f);
+			add_seed(nm, buf, got);
+			free(buf);
+		}
+		free(names[i]);
+	}
+}
+
+static unsigned mkdesc(int dir, int kind, int corr) { return (unsigned)(dir | (kind << 1) | (corr << 3)); }
+static void ref_sig_params(rs_params *p, int tail, int rfc) {
+	rs_default_params(p);
+	p->nchains = 2; p->tail = tail; p->with_rfc3161 = rfc;
+	p->aggr_time = 1600000000ULL; p->pub_time = 1600000000ULL + 86400 * 9 + 5;
+	p->nlinks[0] = 2; p->chain_alg[0] = RH_SHA256;
+	p->link_desc[0][0] = mkdesc(1, 2, 1);        /* left, metadata with padding, level correction 1 */
+	p->link_desc[0][1] = mkdesc(0, 1, 0);        /* right, legacy id */
+	p->nlinks[1] = 2; p->chain_alg[1] = RH_SHA512;
+	p->link_desc[1][0] = mkdesc(1, 0, 0);
+	p->link_desc[1][1] = mkdesc(0, 3, 2);        /* right, metadata without padding */
+}
+
+static void add_ref_seeds(void) {
+	int tail, rfc, ver, kind;
+	vbuf b, pl, body;
+	char nm[64];
+	vb_init(&b); vb_init(&pl); vb_init(&body);
+	for (tail = 0; tail <= 3; tail++) for (rfc = 0; rfc <= 1; rfc++) {
+		rs_params p;
+		rsig s;
+		ref_sig_params(&p, tail, rfc);
+		rs_build(&s, &p);
+		vb_reset(&b); rs_serialize(&s, &b);
+		snprintf(nm, sizeof nm, "ref:sig.tail%d.rfc%d", tail, rfc);
+		add_seed(nm, b.p, b.n);
+	}
+	for (ver = 1; ver <= 2; ver++) for (kind = RP_AGGR; kind <= RP_EXT; kind++) {
+		rp_env e;
+		const char *kn = kind == RP_AGGR ? "aggr" : "ext";
+		unsigned char h[RH_MAX_IMPRINT];
+		size_t hl = ref_fake_imprint(RH_SHA256, 12, h);
+		memset(&e, 0, sizeof e);
+		e.version = ver; e.kind = kind; e.login = REFLOGIN; e.mac_alg = RH_SHA256; e.key = REFKEY; e.keylen = strlen(REFKEY);
+		e.with_ids = 1; e.instance_id = 7; e.message_id = 300;
+		/* response */
+		vb_reset(&pl); vb_reset(&body); vb_reset(&b);
+		if (kind == RP_AGGR) {
+			rsig s;
+			rp_aggregate(&s, h, hl, 0, 3, 3, 1700000000ULL, 1700000000ULL + 86400 * 3);
+			rp_sig_body(&s, &body);
+			rp_aggr_resp_payload(&pl, ver, 0x1234, 1, 0, NULL, body.p, body.n);
+		} else {
+			rsig c;
+			rp_extend(&c, h, hl, 1600000000ULL, 1600000000ULL + 86400 * 30 + 3);
+			rs_serialize_cal(&c, &body);
+			rp_ext_resp_payload(&pl, ver, 0x1234, 1, 0, NULL, 1, 1700000000ULL, body.p, body.n);
+		}
+		rp_wrap_response(&b, &e, pl.p, pl.n);
+		snprintf(nm, sizeof nm, "ref:%s-resp.v%d", kn, ver); add_seed(nm, b.p, b.n);
+		/* response with an error status and message */
+		vb_reset(&pl); vb_reset(&b);
+		if (kind == RP_AGGR) rp_aggr_resp_payload(&pl, ver, 0x1234, 1, 0x0101, "request refused", NULL, 0);
+		else rp_ext_resp_payload(&pl, ver, 0x1234, 1, 0x0104, "invalid time range", 0, 0, NULL, 0);
+		rp_wrap_response(&b, &e, pl.p, pl.n);
+		snprintf(nm, sizeof nm, "ref:%s-status.v%d", kn, ver); add_seed(nm, b.p, b.n);
+		/* error PDU */
+		vb_reset(&pl); vb_reset(&b);
+		rp_error_payload(&pl, ver, kind, 0x0102, "authentication failure");
+		rp_wrap_response(&b, &e, pl.p, pl.n);
+		snprintf(nm, sizeof nm, "ref:%s-error.v%d", kn, ver); add_seed(nm, b.p, b.n);
+		/* request */
+		vb_reset(&pl); vb_reset(&body); vb_reset(&b);
+		rtlv_put_u64(&body, 0x01, 0x4321);
+		if (kind == RP_AGGR) { rtlv_put(&body, 0x02, 0, 0, h, hl, 0); rtlv_put_u64(&body, 0x03, 3); }
+		else { rtlv_put_u64(&body, 0x02, 1600000000ULL); rtlv_put_u64(&body, 0x03, 1600900000ULL); }
+		rtlv_put(&pl, ver == 2 ? 0x02u : (kind == RP_AGGR ? 0x201u : 0x301u), 0, 0, body.p, body.n, 0);
+		rp_wrap_request(&b, &e, pl.p, pl.n);
+		snprintf(nm, sizeof nm, "ref:%s-req.v%d", kn, ver); add_seed(nm, b.p, b.n);
+		if (ver == 2) {
+			/* configuration response (alone, and together with a response) */
+			vb_reset(&pl); vb_reset(&b);
+			if (kind == RP_AGGR) rp_aggr_conf_payload(&pl, 17, 1, 400, 1024, "ksi+tcp://parent.sim.invalid:3332");
+			else rp_ext_conf_payload(&pl, 4, "ksi+http://parent.sim.invalid/ext", 1400000000, 1700000000);
+			rp_wrap_response(&b, &e, pl.p, pl.n);
+			snprintf(nm, sizeof nm, "ref:%s-conf.v%d", kn, ver); add_seed(nm, b.p, b.n);
+			/* configuration request */
+			vb_reset(&pl); vb_reset(&b);
+			rtlv_put(&pl, 0x04, 0, 0, NULL, 0, 0);
+			rp_wrap_request(&b, &e, pl.p, pl.n);
+			snprintf(nm, sizeof nm, "ref:%s-confreq.v%d", kn, ver); add_seed(nm, b.p, b.n);
+		}
+	}
+	vb_free(&b); vb_free(&pl); vb_free(&body);
+}
+
+static const char *QUICK_SEEDS[] = {
+	"ref:sig.tail3.rfc0", "ref:sig.tail2.rfc1", "ref:aggr-resp.v2", "ref:aggr-resp.v1", "ref:ext-resp.v2", "ref:ext-resp.v1", "ref:aggr-error.v2",
+	"ref:ext-conf.v2", "ok-sig-metadata-with-padding.ksig", "rfc3161-sha1-as-input-hash-2017.ksig", "ok_nested-9.tlv",
+	"publications-one-cert-one-publication-record-with-wrong-hash.tlv", NULL
+};
+
+static void load_seeds(void) {
+	int i, k;
+	vbuf b;
+	add_ref_seeds();
+	load_dir("");
+	load_dir("v2");
+	for (i = 0; i < NSEEDS; i++) for (k = 0; QUICK_SEEDS[k]; k++) if (!strcmp(SEEDS[i].name, QUICK_SEEDS[k])) SEEDS[i].quick = 1;
+	/* user publications file of the rich verification context */
+	vb_init(&g_userpub_bytes);
+	for (i = 0; i < NSEEDS; i++) if (!strcmp(SEEDS[i].name, "ksi-publications.bin")) vb_put(&g_userpub_bytes, SEEDS[i].d, SEEDS[i].n);
+	/* sentinel signature */
+	{
+		rs_params p;
+		rsig s;
+		ref_sig_params(&p, 2, 0);
+		p.aggr_time = 1650000000ULL; p.pub_time = 1650000000ULL + 86400 * 4;
+		rs_build(&s, &p);
+		vb_init(&b); rs_serialize(&s, &b);
+		g_sentinel = b;
+	}
+}
+static int seed_selected(const seed_t *s) { return VF_THOROUGH || s->quick; }
+
+static int seed_eps(const seed_t *s, int *eps) {
+	switch (s->type) {
+		case ST_SIG: eps[0] = EP_SIG_EMPTY; eps[1] = EP_SIG_INT; eps[2] = EP_TLV; eps[3] = EP_ELEM; eps[4] = EP_ELEMX; eps[5] = EP_FTLV; return 6;
+		case ST_AGGR: eps[0] = EP_AGGR1; eps[1] = EP_AGGR2; return 2;
+		case ST_EXT: eps[0] = EP_EXT1; eps[1] = EP_EXT2; return 2;
+		case ST_PUBFILE: eps[0] = EP_PUBFILE; return 1;
+		default: eps[0] = EP_TLV; eps[1] = EP_ELEM; eps[2] = EP_ELEMX; eps[3] = EP_FTLV; return 4;
+	}
+}
+
+/* ------------------------------------------------------------------ (ii) mutation families */
+enum { F_ID = 0, F_TRUNC, F_BYTE, F_LEN, F_ZEND, F_N };
+static const char *FNAME[F_N] = {"id", "trunc", "byte", "len", "zend"};
+
+static long fam_count(const seed_t *s, int fam) {
+	switch (fam) {
+		case F_ID: return 1;
+		case F_TRUNC: return s->n ? (long)s->n - 1 : 0;     /* prefixes of length 1..n-1; the empty input is the case short:<entry point>:empty */
+		case F_BYTE: return (long)s->n * 6;
+		case F_LEN: return (long)s->nel * 5;
+		default: return (long)s->nel;
+	}
+}
+
+static void put_hdr(vbuf *out, const el_t *e, size_t len) {
+	unsigned char h[4];
+	if (e->is16 || len > 0xff || e->tag > 0x1f) {
+		h[0] = (unsigned char)(0x80 | (e->nc ? 0x40 : 0) | (e->fw ? 0x20 : 0) | ((e->tag >> 8) & 0x1f));
+		h[1] = (unsigned char)(e->tag & 0xff); h[2] = (unsigned char)((len >> 8) & 0xff); h[3] = (unsigned char)(len & 0xff);
+		vb_put(out, h, 4);
+	} else {
+		h[0] = (unsigned char)((e->nc ? 0x40 : 0) | (e->fw ? 0x20 : 0) | (e->tag & 0x1f)); h[1] = (unsigned char)len;
+		vb_put(out, h, 2);
+	}
+}
+static int is_ancestor(const seed_t *s, int a, int t) { while (t >= 0) { if (t == a) return 1; t = s->el[t].parent; } return 0; }
+/* element i rebuilt so that target t (a descendant or i itself) is the very last thing, with length 0 */
+static void emit_zend(const seed_t *s, int i, int t, vbuf *out) {
+	const el_t *e = &s->el[i];
+	vbuf pl;
+	int c, path = -1;
+	if (i == t) { put_hdr(out, e, 0); return; }
+	vb_init(&pl);
+	for (c = i + 1; c < s->nel && s->el[c].off < e->off + e->hdr + e->len; c++) {
+		if (s->el[c].parent != i) continue;
+		if (is_ancestor(s, c, t)) { path = c; continue; }
+		vb_put(&pl, s->d + s->el[c].off, s->el[c].hdr + s->el[c].len);
+	}
+	if (path >= 0) emit_zend(s, path, t, &pl);
+	if (pl.n > 0xffff) { vb_free(&pl); vb_put(out, s->d + e->off, e->hdr + e->len); return; }
+	put_hdr(out, e, pl.n);
+	vb_putvb(out, &pl);
+	vb_free(&pl);
+}
+
+/* returns 1 when a mutant was produced (0: the mutation is a no-op or a duplicate of an earlier one) */
+static int make_mutant(const seed_t *s, int fam, long idx, vbuf *out) {
+	switch (fam) {
+		case F_ID: vb_put(out, s->d, s->n); return 1;
+		case F_TRUNC: vb_put(out, s->d, (size_t)idx + 1); return 1;
+		case F_BYTE: {
+			size_t off = (size_t)(idx / 6);
+			int op = (int)(idx % 6), k;
+			unsigned char o = s->d[off], v[6];
+			v[0] = 0; v[1] = 0xff; v[2] = (unsigned char)(o ^ 1); v[3] = (unsigned char)(o ^ 0x80); v[4] = (unsigned char)(o + 1); v[5] = (unsigned char)(o - 1);
+			if (v[op] == o) return 0;
+			for (k = 0; k < op; k++) if (v[k] == v[op]) return 0;
+			vb_put(out, s->d, s->n);
+			out->p[off] = v[op];
+			return 1;
+		}
+		case F_LEN: {
+			const el_t *e = &s->el[idx / 5];
+			int op = (int)(idx % 5), k;
+			size_t max = e->hdr == 4 ? 0xffff : 0xff, v[5];
+			v[0] = 0; v[1] = e->len ? e->len - 1 : 0; v[2] = e->len + 1; v[3] = s->n - (e->off + e->hdr); v[4] = 0xffff;
+			for (k = 0; k < 5; k++) if (v[k] > max) v[k] = max;
+			if (v[op] == e->len) return 0;
+			for (k = 0; k < op; k++) if (v[k] == v[op]) return 0;
+			vb_put(out, s->d, s->n);
+			if (e->hdr == 4) { out->p[e->off + 2] = (unsigned char)(v[op] >> 8); out->p[e->off + 3] = (unsigned char)(v[op] & 0xff); }
+			else out->p[e->off + 1] = (unsigned char)v[op];
+			return 1;
+		}
+		default: {
+			int t = (int)idx, c;
+			/* top level: prefix (magic), every top-level element except the one on the path, then the path element */
+			int path = -1;
+			vb_put(out, s->d, s->base);
+			for (c = 0; c < s->nel; c++) {
+				if (s->el[c].parent != -1) continue;
+				if (is_ancestor(s, c, t)) { path = c; continue; }
+				vb_put(out, s->d + s->el[c].off, s->el[c].hdr + s->el[c].len);
+			}
+			if (path < 0) return 0;
+			emit_zend(s, path, t, out);
+			return 1;
+		}
+	}
+}
+
+static int seed_get(batch *b, long i, vbuf *out, int *eps) {
+	const seed_t *s = (const seed_t *)b->u;
+	if (!make_mutant(s, (int)b->a, b->b2 + i, out)) return 0;
+	return seed_eps(s, eps);
+}
+
+/* items per case: sized so that a case stays in the range of seconds */
+static long chunk_items(const seed_t *s, int fam) {
+	double per_item;   /* rough cost of one mutant through all its entry points, microseconds (ASan build) */
+	long c;
+	if (fam == F_ZEND) return 1;
+	switch (s->type) {
+		case ST_SIG: per_item = 400.0 + 14.0 * (double)s->n; break;
+		case ST_AGGR: per_item = 300.0 + 8.0 * (double)s->n; break;
+		case ST_EXT: per_item = 150.0 + 2.0 * (double)s->n; break;
+		case ST_PUBFILE: per_item = 600.0 + 0.6 * (double)s->n; break;
+		default: per_item = 30.0 + 0.6 * (double)s->n; break;
+	}
+	c = (long)(2.0e6 / per_item);
+	if (c < 24) c = 24;
+	if (c > 60000) c = 60000;
+	return c;
+}
+
+static void seed_cases(const seed_t *s, int fam) {
+	long total = fam_count(s, fam), ch = chunk_items(s, fam), start;
+	int L;
+	for (start = 0; start < total; start += ch) for (L = 0; L <= 1; L++) {
+		batch b;
+		if (!vf_case_begin("m:%s:%s:%ld:L%d", s->name, FNAME[fam], start / ch, L)) continue;
+		memset(&b, 0, sizeof b);
+		b.u = (void *)s; b.a = fam; b.b2 = start; b.count = (start + ch <= total) ? ch : total - start;
+		b.get = seed_get; b.userpub = (s->type == ST_SIG || s->type == ST_AGGR); b.render_stride = 1;
+		stats_reset();
+		run_batch(&b, L ? 1 : 0);
+		if (start == 0 && L == 0 && fam == F_BYTE) vf_sample("seed %s (%s, %zu bytes, %d TLV elements): every offset x {=00,=ff,^01,^80,+1,-1}, chunk of %ld mutants", s->name, STNAME[s->type], s->n, s->nel, b.count);
+		if (fam == F_ZEND && L == 0 && s->el[start].tag == 0x05 && s->el[start].parent >= 0 && s->el[s->el[start].parent].tag == 0x801) {
+			vbuf m; vb_init(&m);
+			if (make_mutant(s, fam, start, &m)) vf_sample("seed %s: element #%ld (tag %02x inside %04x) moved to the end with length 0 -> %zu bytes ending in ..%s", s->name, start, s->el[start].tag, s->el[s->el[start].parent].tag, m.n, vf_hex(m.p + (m.n > 12 ? m.n - 12 : 0), m.n > 12 ? 12 : m.n));
+			vb_free(&m);
+		}
+		stats_flush();
+		vf_case_end(st_calls > 0);
+	}
+}
+
+#define SMALL_SEED 128
+static void part_seeds(int which) {   /* 0: small seeds, all families but zend; 1: other seeds, same; 2: zend of every seed */
+	int i, f;
+	for (i = 0; i < NSEEDS; i++) {
+		const seed_t *s = &SEEDS[i];
+		if (!seed_selected(s)) continue;
+		if (which == 2) { seed_cases(s, F_ZEND); continue; }
+		if ((s->n <= SMALL_SEED) != (which == 0)) continue;
+		for (f = F_ID; f < F_ZEND; f++) seed_cases(s, f);
+	}
+}
+
+/* ------------------------------------------------------------------ (i) all short byte strings */
+static const unsigned char SA[12] = {0x00, 0x01, 0x02, 0x04, 0x05, 0x07, 0x08, 0x1f, 0x80, 0x88, 0xff, 0x03};
+
+static int full_get(batch *b, long i, vbuf *out, int *eps) {
+	vb_putc(out, (int)b->b2);
+	if (i >= 1 && i <= 256) vb_putc(out, (int)(i - 1));
+	else if (i > 256) { long k = i - 257; vb_putc(out, (int)(k >> 8)); vb_putc(out, (int)(k & 255)); }
+	eps[0] = (int)b->a;
+	return 1;
+}
+static int struct_get(batch *b, long i, vbuf *out, int *eps) {
+	long span = 1, len = 0, k;
+	unsigned char t[8];
+	vb_putc(out, SA[b->b2]); vb_putc(out, SA[b->c]);
+	while (i >= span) { i -= span; span *= 12; len++; }
+	for (k = len - 1; k >= 0; k--) { t[k] = SA[i % 12]; i /= 12; }
+	vb_put(out, t, (size_t)len);
+	eps[0] = (int)b->a;
+	return 1;
+}
+static int empty_get(batch *b, long i, vbuf *out, int *eps) { (void)i; (void)out; eps[0] = (int)b->a; return 1; }
+
+static void part_short(void) {
+	int ep, L, b0, a0, a1;
+	for (L = 0; L <= 1; L++) for (ep = 0; ep < EP_NBIN; ep++) {
+		int big = VF_THOROUGH && L == 0;     /* debug log level: the quick bounds in both tiers */
+		int maxlen = big ? 7 : 5, k;
+		long scount = 0, span = 1;
+		for (k = 2; k <= maxlen; k++) { scount += span; span *= 12; }
+		if (vf_case_begin("short:%s:empty:L%d", EPNAME[ep], L)) {
+			batch b; memset(&b, 0, sizeof b);
+			b.a = ep; b.count = 1; b.get = empty_get; b.render_stride = 1; b.userpub = 0;
+			stats_reset(); run_batch(&b, L); stats_flush(); vf_case_end(1);
+		}
+		for (b0 = 0; b0 < 256; b0++) {
+			batch b;
+			if (!vf_case_begin("short:%s:full:%02x:L%d", EPNAME[ep], b0, L)) continue;
+			memset(&b, 0, sizeof b);
+			b.a = ep; b.b2 = b0; b.count = big ? 1 + 256 + 65536 : 1 + 256; b.get = full_get; b.render_stride = big ? 61 : 1;
+			stats_reset(); run_batch(&b, L);
+			if (ep == EP_SIG_INT && b0 == 0x88 && L == 0) vf_sample("all byte strings 88, 88 xx%s through KSI_Signature_parse: %ld inputs, %ld accepted", big ? ", 88 xx yy" : "", b.count, st_ok[ep]);
+			stats_flush(); vf_case_end(1);
+		}
+		for (a0 = 0; a0 < 12; a0++) for (a1 = 0; a1 < 12; a1++) {
+			batch b;
+			if (!vf_case_begin("short:%s:struct:%02x%02x:L%d", EPNAME[ep], SA[a0], SA[a1], L)) continue;
+			memset(&b, 0, sizeof b);
+			b.a = ep; b.b2 = a0; b.c = a1; b.count = scount; b.get = struct_get; b.render_stride = big ? 61 : 7;
+			stats_reset(); run_batch(&b, L);
+			if (ep == EP_TLV && a0 == 1 && a1 == 4 && L == 0) vf_sample("all strings 01 04 s, s over the 12 byte structural alphabet, |s| <= %d, through KSI_TLV_parseBlob: %ld inputs, %ld accepted", maxlen - 2, b.count, st_ok[ep]);
+			stats_flush(); vf_case_end(1);
+		}
+	}
+}
+
+/* ------------------------------------------------------------------ (iii) text entry points */
+#define NTA 129
+static unsigned char TA[NTA];
+static void init_ta(void) { int i; for (i = 0; i < 127; i++) TA[i] = (unsigned char)(i + 1); TA[127] = 0x80; TA[128] = 0xff; }
+
+/* all strings of length 1..3 whose first character index is in [b2, c) */
+static int text_get(batch *b, long i, vbuf *out, int *eps) {
+	long per = 1 + NTA + (long)NTA * NTA, first = b->b2 + i / per, r = i % per;
+	vb_putc(out, TA[first]);
+	if (r >= 1 && r <= NTA) vb_putc(out, TA[r - 1]);
+	else if (r > NTA) { long k = r - 1 - NTA; vb_putc(out, TA[k / NTA]); vb_putc(out, TA[k % NTA]); }
+	eps[0] = (int)b->a;
+	return 1;
+}
+
+/* single character edits of a base string: 0 = the string itself, deletions, substitutions, insertions */
+static const unsigned char EDITC[] = {'-', '_', '0', '1', '2', '9', 'A', 'a', 'Z', 'z', ',', ' ', '=', 0x80, 0xff};
+#define NEDITC ((long)sizeof EDITC)
+static long edit_count(size_t m) { return 1 + (long)m + (long)m * NEDITC + ((long)m + 1) * NEDITC; }
+static void edit_make(const char *s, size_t m, long idx, vbuf *out) {
+	if (idx == 0) { vb_put(out, s, m); return; }
+	idx--;
+	if (idx < (long)m) { vb_put(out, s, (size_t)idx); vb_put(out, s + idx + 1, m - (size_t)idx - 1); return; }
+	idx -= (long)m;
+	if (idx < (long)m * NEDITC) { vb_put(out, s, m); out->p[out->n - m + (size_t)(idx / NEDITC)] = EDITC[idx % NEDITC]; return; }
+	idx -= (long)m * NEDITC;
+	vb_put(out, s, (size_t)(idx / NEDITC)); vb_putc(out, EDITC[idx % NEDITC]); vb_put(out, s + idx / NEDITC, m - (size_t)(idx / NEDITC));
+}
+static int edit_get(batch *b, long i, vbuf *out, int *eps) {
+	const char *s = (const char *)b->u;
+	edit_make(s, strlen(s), i, out);
+	eps[0] = (int)b->a;
+	return 1;
+}
+
+static void text_case(const char *name, int ep, batch *b, int L) {
+	if (!vf_case_begin("text:%s:%s:L%d", EPNAME[ep], name, L)) return;
+	b->a = ep; b->render_stride = 1;
+	stats_reset(); run_batch(b, L);
+	if (b->get == edit_get && L == 0) vf_sample("%s: '%s' and each single-character edit of it (%ld strings): %ld accepted, %ld refused", EPNAME[ep], (const char *)b->u, b->count, st_ok[ep], st_err[ep]);
+	stats_flush(); vf_case_end(1);
+}
+
+static void part_text_short(int ep, int group, int levels) {
+	int first, L;
+	char nm[32];
+	for (L = 0; L < levels; L++) for (first = 0; first < NTA; first += group) {
+		batch b; memset(&b, 0, sizeof b);
+		b.b2 = first; b.c = first + group > NTA ? NTA : first + group;
+		b.count = (b.c - b.b2) * (1 + NTA + (long)NTA * NTA); b.get = text_get;
+		snprintf(nm, sizeof nm, "short:%02x-%02x", TA[b.b2], TA[b.c - 1]);
+		text_case(nm, ep, &b, L);
+	}
+}
+
+/* publication strings */
+static char PUBSTR[6][200];
+static int NPUBSTR;
+static void init_pubstr(void) {
+	static const int ALG[] = {RH_SHA256, RH_SHA512, RH_SHA1, RH_SHA384, RH_RIPEMD160};
+	static const uint64_t TM[] = {1400112000ULL, 1, 0xffffffffULL, 0x123456789abcULL, 1600000000ULL};
+	int i;
+	for (i = 0; i < 5; i++) {
+		unsigned char im[RH_MAX_IMPRINT];
+		size_t il = ref_fake_imprint(ALG[i], 40u + (unsigned)i, im);
+		ref_pubstring(TM[i], im, il, PUBSTR[i], sizeof PUBSTR[i]);
+	}
+	NPUBSTR = 5;
+	/* a real one (test/resource publication of 2014-04-15) */
+	snprintf(PUBSTR[NPUBSTR++], sizeof PUBSTR[0], "%s", "AAAAAA-CTJR3I-AANBWU-RY76YF-7TH2M5-KGEZVA-WLLRGD-3GKYBG-AM5WWV-4MCLSP-XPRDDI-UFMHBA");
+}
+static int list_get(batch *b, long i, vbuf *out, int *eps) {
+	const char *const *l = (const char *const *)b->u;
+	vb_put(out, l[i], strlen(l[i]));
+	eps[0] = (int)b->a;
+	return 1;
+}
+static void part_pubstring(void) {
+	int i, L;
+	char nm[32];
+	part_text_short(EP_B32, 1, 2);
+	for (L = 0; L <= 1; L++) {
+		static const char *MISC[] = {"", "-", "--------", "AAAAAA", "AAAAAA-AAAAAA", "AAAAAAAAAAAAAAAAAAAAAAAAAAAAAAAAAAAAAAAAAAAAAAAAAAAAAAAAAAAAAAAAAAAAAAAAAAAAAAAAAAAAAAAAAAAAAAAAAAAAAAAAAAAA",
+		                            "77777777", "========", "AAAAAA-CTJR3I-AANBWU-RY76YF-7TH2M5-KGEZVA-WLLRGD-3GKYBG-AM5WWV-4MCLSP-XPRDDI-UFMHBA-AAAAAA"};
+		batch b; memset(&b, 0, sizeof b);
+		b.u = (void *)MISC; b.count = (long)(sizeof MISC / sizeof *MISC); b.get = list_get;
+		text_case("misc", EP_B32, &b, L);
+		for (i = 0; i < NPUBSTR; i++) {
+			memset(&b, 0, sizeof b);
+			b.u = PUBSTR[i]; b.count = edit_count(strlen(PUBSTR[i])); b.get = edit_get;
+			snprintf(nm, sizeof nm, "edit%d", i);
+			text_case(nm, EP_B32, &b, L);
+		}
+	}
+}
+
+/* URIs */
+static char **URIS;
+static long NURIS;
+static void init_uris(void) {
+	static const char *SCH[] = {"", "http://", "https://", "ksi://", "ksi+http://", "ksi+tcp://", "HTTP://", "file://", "ksi+unknown://", "://", "a:", "http:/", "http:"};
+	static const char *USR[] = {"", "user:pass@", "user@", ":@", "@", "u%40x:p%3a@", "user:pa:ss@"};
+	static const char *HST[] = {"", "localhost", "example.com", "127.0.0.1", "[::1]", "[2001:db8::1]", "[::1", "::1", "[]", "a..b", "-", "xn--bcher-kva.example", "host name"};
+	static const char *PRT[] = {"", ":", ":0", ":80", ":65535", ":65536", ":4294967296", ":99999999999999999999", ":-1", ":8a", ":+80"};
+	static const char *PTH[] = {"", "/", "/a/b?x=1#frag", "?q", "#f", "//", "/%zz%", "/a b"};
+	long cap = (long)(sizeof SCH / sizeof *SCH) * (long)(sizeof USR / sizeof *USR) * (long)(sizeof HST / sizeof *HST) * (long)(sizeof PRT / sizeof *PRT) * (long)(sizeof PTH / sizeof *PTH) + 16;
+	size_t a, b, c, d, e;
+	char *lng;
+	URIS = (char **)calloc((size_t)cap, sizeof *URIS);
+	for (a = 0; a < sizeof SCH / sizeof *SCH; a++) for (b = 0; b < sizeof USR / sizeof *USR; b++) for (c = 0; c < sizeof HST / sizeof *HST; c++)
+	for (d = 0; d < sizeof PRT / sizeof *PRT; d++) for (e = 0; e < sizeof PTH / sizeof *PTH; e++) {
+		char t[256];
+		snprintf(t, sizeof t, "%s%s%s%s%s", SCH[a], USR[b], HST[c], PRT[d], PTH[e]);
+		URIS[NURIS++] = strdup(t);
+	}
+	/* very long components */
+	lng = (char *)malloc(5200); strcpy(lng, "http://"); memset(lng + 7, 'h', 5000); strcpy(lng + 5007, ":80/path"); URIS[NURIS++] = lng;
+	lng = (char *)malloc(5200); memset(lng, 's', 5000); strcpy(lng + 5000, "://host/"); URIS[NURIS++] = lng;
+	lng = (char *)malloc(5200); strcpy(lng, "ksi+tcp://host:"); memset(lng + 15, '9', 5000); lng[5015] = 0; URIS[NURIS++] = lng;
+	lng = (char *)malloc(5200); strcpy(lng, "http://host/"); memset(lng + 12, 'p', 5000); lng[5012] = 0; URIS[NURIS++] = lng;
+	lng = (char *)malloc(5200); strcpy(lng, "http://"); memset(lng + 7, 'u', 5000); strcpy(lng + 5007, "@host/"); URIS[NURIS++] = lng;
+}
+static void part_uri(void) {
+	long start, ch = 8192;
+	char nm[32];
+	part_text_short(EP_URI, 1, 1);
+	for (start = 0; start < NURIS; start += ch) {
+		batch b; memset(&b, 0, sizeof b);
+		b.u = (void *)(URIS + start); b.count = start + ch <= NURIS ? ch : NURIS - start; b.get = list_get;
+		snprintf(nm, sizeof nm, "list%ld", start / ch);
+		text_case(nm, EP_URI, &b, 0);
+	}
+}
+
+/* hash algorithm names (the tables of src/ksi/hash.c) */
+static const char *HASHNAMES[] = {"SHA-1", "SHA1", "SHA-256", "SHA2-256", "SHA-2", "SHA2", "SHA256", "DEFAULT", "RIPEMD-160", "RIPEMD160", "SHA-384", "SHA384", "SHA2-384",
+                                  "SHA-512", "SHA512", "SHA2-512", "SHA3-224", "SHA3-256", "SHA3-384", "SHA3-512", "SM-3", "SM3", "sha_256", "nonexistent"};
+static void part_hashname(void) {
+	size_t i;
+	{
+		/* the known names alone (first 20 entries: every table before SM-3) */
+		batch b; memset(&b, 0, sizeof b);
+		b.u = (void *)HASHNAMES; b.count = 20; b.get = list_get;
+		text_case("known", EP_HASHNAME, &b, 0);
+	}
+	for (i = 0; i < sizeof HASHNAMES / sizeof *HASHNAMES; i++) {
+		batch b; memset(&b, 0, sizeof b);
+		b.u = (void *)HASHNAMES[i]; b.count = edit_count(strlen(HASHNAMES[i])); b.get = edit_get;
+		text_case(HASHNAMES[i], EP_HASHNAME, &b, 0);
+	}
+	part_text_short(EP_HASHNAME, 8, 1);
+}
+
+/* ------------------------------------------------------------------ self check of the harness */
+static void part_selfcheck(void);
+static void part_datestring(void);
+static void part_selfcheck(void) {
+	int i;
+	if (!vf_case_begin("selfcheck")) return;
+	stats_reset();
+	ctx_open(0, 1);
+	if (sentinel() != g_sentinel_good) vf_fail("sentinel-not-accepted", "the known good sentinel signature is not parsed / verified / re-serialized identically on a fresh context");
+	if (g_userpub_bytes.n && g_userpub == NULL) vf_outcome("selfcheck:user-publications-file-not-parsed");
+	if (ctx_close() != 0) vf_fail("leak:batch", "SDK blocks still allocated after the self check context was freed");
+	for (i = 0; i < NSEEDS; i++) {
+		const seed_t *s = &SEEDS[i];
+		batch b;
+		long before = 0;
+		int e;
+		if (strncmp(s->name, "ref:", 4) != 0) continue;
+		for (e = 0; e < EP_N; e++) before += st_ok[e];
+		memset(&b, 0, sizeof b);
+		b.u = (void *)s; b.a = F_ID; b.count = 1; b.get = seed_get; b.userpub = 1; b.render_stride = 1;
+		run_batch(&b, 0);
+		for (e = 0; e < EP_N; e++) before -= st_ok[e];
+		vf_outcome("selfcheck:refseed:%s", before ? "accepted" : "refused");
+		if (!before) vf_outcome("selfcheck:refused:%s", s->name);
+	}
+	vf_obs("seeds=%d", NSEEDS);
+	vf_max("seeds", NSEEDS);
+	stats_flush();
+	vf_case_end(1);
+}
+
+/* KSI_Integer_toDateString: every buffer size 1..40 x a set of times (values a parsed object can carry) */
+static void part_datestring(void) {
+	static const KSI_uint64_t TM[] = {0, 1, 59, 86399, 86400, 951782400ULL, 1400112000ULL, 0x7fffffffULL, 0x80000000ULL, 0xffffffffULL, 253402300799ULL, 253402300800ULL,
+	                                  0x7fffffffffffffffULL, 0x8000000000000000ULL, 0xffffffffffffffffULL, 67767976233532799ULL, 67768036191676800ULL};
+	size_t i, l;
+	if (!vf_case_begin("text:datestring")) return;
+	stats_reset();
+	ctx_open(0, 0);
+	for (i = 0; i < sizeof TM / sizeof *TM; i++) {
+		KSI_Integer *v = NULL;
+		if (KSI_Integer_new(ctx, TM[i], &v) != KSI_OK) continue;
+		for (l = 1; l <= 40; l++) {
+			char *b = (char *)malloc(l), *r;
+			memset(b, 'x', l);
+			CALL(); r = KSI_Integer_toDateString(v, b, l);
+			if (r == b && memchr(b, 0, l) == NULL) { fail("tostring-unterminated", "KSI_Integer_toDateString(%llu, buf, %zu) returned the buffer without a terminator (documented: the remainder is discarded and a terminating NUL is guaranteed)", (unsigned long long)TM[i], l); vf_outcome("datestring:unterminated"); }
+			else if (r == b) { g_sink += strlen(b); vf_outcome("datestring:ok"); }
+			else vf_outcome("datestring:null");
+			free(b);
+		}
+		KSI_Integer_free(v);
+	}
+	if (ctx_close() != 0) fail("leak:batch", "SDK blocks still allocated");
+	stats_flush();
+	vf_case_end(1);
+}
+
+static void run(void) {
+	int res = KSI_OK, rc = KSI_OK, code = KSI_VER_RES_OK, sr = KSI_OK, same = 1;
+	uint64_t h = 1469598103934665603ULL;
+	h = vf_fnv(&res, sizeof res, h); h = vf_fnv(&rc, sizeof rc, h); h = vf_fnv(&code, sizeof code, h); h = vf_fnv(&sr, sizeof sr, h); h = vf_fnv(&same, sizeof same, h);
+	g_sentinel_good = h;
+	init_ta(); init_pubstr(); init_uris();
+	load_seeds();
+	part_selfcheck();
+	part_seeds(0);
+	part_pubstring();
+	part_datestring();
+	part_uri();
+	part_short();
+	part_seeds(1);
+	part_hashname();
+	part_seeds(2);
+}
+
+int main(int argc, char **argv) {
+	vf_driver d = {"C12", run};
+	return vf_main(argc, argv, &d);
 }
